@@ -46,3 +46,15 @@ Example C07_nonvacuous :
   is_bool p = true /\ map (rho ExtZArith (fun _ _ => PStd) p w 5) [0;1;2;3;4] = [Fin 0; Fin (-1); Fin (-1); Fin 2; Fin 2]
   /\ map (sat ExtZArith p w 5) [0;1;2;3;4] = [true; false; false; true; true].
 Proof. split; [exact ExtZ_sign_laws|]. cbv zeta. repeat split; vm_compute; reflexivity. Qed.
+
+(* dense time: the sign of the tick semantics rhoZ against the Boolean dense-time semantics satZ *)
+From Coq Require Import ZArith.
+From RV Require Import Dense DenseSem DenseSat.
+Theorem C07_dense :
+  forall (VS : Val) (AR : Arith VS), SignLaws AR ->
+  forall (W : list dsig) (tend : Z) (p : formula), dbool p = true ->
+  forall t : Z,
+    (ltb (azero AR) (rhoZ AR (fun _ _ => PStd) W tend p t) = true -> satZ AR W tend p t = true) /\
+    (ltb (rhoZ AR (fun _ _ => PStd) W tend p t) (azero AR) = true -> satZ AR W tend p t = false).
+Proof. exact @satZ_sound. Qed.
+Print Assumptions C07_dense.
